@@ -20,7 +20,7 @@ type template struct {
 func skipAddr(v *valueSpec) bool     { return v.addr }
 func skipOpenChan(v *valueSpec) bool { return v.openChan }
 func onlyRef(v *valueSpec) bool      { return !v.ref }
-func isString(v *valueSpec) bool     { return v.ID == "string" }
+func isString(v *valueSpec) bool     { return v.ID == "string" || v.ID == "nstring" }
 func isHuge(v *valueSpec) bool       { return v.huge }
 
 // source renders the program: the chain's prologue, the template's set-up and
@@ -180,6 +180,17 @@ func buildTemplates() []*template {
 	add("member.F", "", `@.F`)
 	add("member.method", "", `@.Sum()`)
 	add("member.pmethod", "", `@.Inc()`)
+	// method call and method value, with and without arguments (struct, pointer and
+	// named non-struct receivers)
+	add("method.call0", "", `@.Total()`)
+	add("method.call1", "", `@.Plus(2)`)
+	add("method.value0", "", "f = @.Total\nf()")
+	add("method.value1", "", "f = @.Plus\nf(2)")
+	add("method.ptr.call", "", `@.Bump(1)`)
+	add("method.ptr.value", "", "f = @.Bump\nf(1)")
+	add("method.ptr.seen", "", "@.Bump(1)\nv").Skip = onlyRef
+	add("method.missing", "", `@.Nope()`)
+	add("method.arg.spread", "", `@.Plus([2]...)`)
 	// dereference, address-of
 	add("deref", "", `*@`)
 	add("addr", "", `&@`)
